@@ -36,8 +36,10 @@ def spec_runs(case):
     p2 = set(case.get("phase2") or [])
     first = [i for i in range(n) if i not in p2]
     runs = [spec_run(case, first, pm & set(first))]
-    if p2:
-        runs.append(spec_run(case, list(range(n)), set(runs[0]) | pm))
+    rw = set(case.get("rewrite") or [])
+    if p2 or rw:
+        # a page that is stored again (overwritten) has the mark it is stored with, whatever the first analysis gave it
+        runs.append(spec_run(case, list(range(n)), (set(runs[0]) - rw) | pm))
     return runs
 
 
@@ -60,6 +62,10 @@ def gen_case(rng, n):
         c["premarked"] = [rng.random() < 0.3 for _ in range(n)]       # stored with need_pre_expand=True (override files do that)
     if n > 1 and rng.random() < 0.35:
         c["phase2"] = sorted(rng.sample(range(n), rng.randint(1, n - 1)))   # stored after a first analysis; analysed again
+    if rng.random() < 0.3:
+        # templates stored once more (overwritten, as override files do) after the first analysis; analysed again
+        first = [i for i in range(n) if i not in (c.get("phase2") or [])]
+        c["rewrite"] = sorted(rng.sample(first, rng.randint(1, len(first))))
     return c
 
 
@@ -81,14 +87,15 @@ def coq_cases_of(case, runs):
     n = len(case["names"])
     pm = {i for i in range(n) if (case.get("premarked") or [False] * n)[i]}
     p2 = set(case.get("phase2") or [])
+    rw = set(case.get("rewrite") or [])
     pl = lambda l: clist(l, lambda p: cpair(cnat(p[0]), cnat(p[1])), "nat * nat")
     out = []
     before = set()
     for k, r in enumerate(runs):
-        present = [i for i in range(n) if i not in p2] if (k == 0 and p2) else list(range(n))
+        present = [i for i in range(n) if i not in p2] if k == 0 else list(range(n))
         ps = set(present)
         edges = [(u, t) for t in present for u in case["uses"][t] if u in ps]
-        seeds = [i for i in present if case["flagged"][i] or i in pm or i in before]
+        seeds = [i for i in present if case["flagged"][i] or i in pm or (i in before and i not in rw)]
         reds = [(r_, d) for r_, d in enumerate(case["redirect"]) if d is not None and r_ in ps and d in ps]
         out.append("(%s, %s, %s, %s, %s)" % (cnat(n), pl(edges), clist(seeds, cnat, "nat"), pl(reds),
                                              clist(r["marked"], cnat, "nat")))
@@ -106,7 +113,7 @@ def run(run):
     run.rule = ("inclusion graphs on n templates (cycles, self-inclusion, diamonds; names with spaces/Unicode/"
                 "lower-case initials), flag sets, redirect placements; exhaustive for n<=2 (quick) / n<=3 (thorough) "
                 "plus random n<=8, a third of them with templates stored already marked and a third analysed twice (more "
-                "templates stored in between); non-trivial = at least one flagged template and one edge; distinct by JSON hash")
+                "templates stored and/or some stored once more - overwritten - in between); non-trivial = at least one flagged template and one edge; distinct by JSON hash")
     run.trusted = [
         "Coq 8.16.1 kernel; vm_compute for evaluating the model on cases and for the Example",
         "axioms: none (Print Assumptions: Closed under the global context)",
